@@ -470,7 +470,9 @@ func (s *Scanner) skipSpaces() {
 }
 
 func (s *Scanner) emit(text string) *Stmt {
-	stmt := &Stmt{Pos: s.total - len(text), Text: text, Comments: s.comments}
+	// The text always starts at the beginning of the current input, which
+	// is not necessarily len(text) bytes back (e.g. a trailing GO command).
+	stmt := &Stmt{Pos: s.total - s.pos, Text: text, Comments: s.comments}
 	s.input = s.input[s.pos:]
 	s.pos = 0
 	s.comments = nil
